@@ -570,6 +570,10 @@ func runC10(r *hk.Run) {
 	for i, m := 0, r.Scale(200, 4000); i < m; i++ {
 		runProgram(r, genUploadProgram(rng))
 	}
+	// groups: two or three requests built from one client before any is sent
+	for i, m := 0, r.Scale(150, 3000); i < m; i++ {
+		runGroup(r, genGroup(rng))
+	}
 	backoffCases(r, rng)
 	rawOrigin(r, rng)
 }
